@@ -1334,9 +1334,12 @@ class _IterativeEvalTracker:
     @property
     def ns(self):
         if not hasattr(self._ns, 'todo'):
+            # each thread starts with its own defaults
             self._ns.todo = set()
             self._ns.computed = set()
             self._ns.iteration_number = 0
+            self._ns.iterations = 100
+            self._ns.tolerance = 0.001
         return self._ns
 
     def __call__(self, iterations=100, tolerance=0.001):
